@@ -1,0 +1,19 @@
+//! Verification hooks (only with `--cfg mp4_verif`): re-exports of items that are public but
+//! live in crate-private modules, so that an external harness crate can name them. No logic.
+pub use crate::mp4box::avc1::*;
+pub use crate::mp4box::ctts::*;
+pub use crate::mp4box::data::*;
+pub use crate::mp4box::dinf::*;
+pub use crate::mp4box::elst::*;
+pub use crate::mp4box::hev1::*;
+pub use crate::mp4box::ilst::*;
+pub use crate::mp4box::mp4a::*;
+pub use crate::mp4box::stsc::*;
+pub use crate::mp4box::stts::*;
+pub use crate::mp4box::tkhd::*;
+pub use crate::mp4box::tx3g::*;
+pub use crate::mp4box::vmhd::*;
+
+pub use crate::mp4box::mdhd::{verif_language_code, verif_language_string};
+pub use crate::mp4box::mp4a::{verif_read_desc, verif_size_of_length, verif_write_desc};
+pub use crate::track::{VerifTrackWriter, VerifTrackWriterState};
